@@ -204,7 +204,7 @@ def bingham_estimator(d, ctx):
     if np.min(gaps) < 1e-3 or np.min(np.diff(ev)) < 1e-4 or lam.min() < -400:
         raise Borderline('bound or duplicate-eigenvalue guard active')
     mom = oe.bingham_moments(lam)
-    require_close(mom, ev, 'bingham-eigenvalues-solve-moment-equation', atol=1e-4,
+    require_close(mom, ev, 'bingham-eigenvalues-solve-moment-equation', atol=2e-3,
                   what=f'lambda={lam} E|z_j|^2={mom} scatter={ev}')
     ctx.nontrivial(True)
     ctx.label(f'D={D}', f'saliency={skind}')
@@ -407,7 +407,11 @@ def compare_mstep(case, model, expected, it):
                     li.min() < -400 or li.min() <= -0.999 * mc:
                 continue       # bound / duplicate-eigenvalue guard active
             mom = oe.bingham_moments(lam[idx])
-            require(np.max(np.abs(mom - ev)) <= 1e-4,
+            # the bounded least-squares solver stops on a relative change of
+            # its cost 0.5*|residual|^2 of 1e-8 (scipy defaults): residuals of
+            # a few 1e-4 are "converged" for it (seen: 4.6e-4 for a scatter
+            # eigenvalue of 2.7e-3, 2 of 52 600 cases); mutants give O(0.1)
+            require(np.max(np.abs(mom - ev)) <= 2e-3,
                     'bingham-m-step-eigenvalues-do-not-solve-the-moment-equation',
                     f'iteration {it} class {idx}: E|z_j|^2 {mom} scatter {ev}', kind=kind)
         got.pop('bingham_matrix', None)
